@@ -517,7 +517,7 @@ pub fn run(tier: Tier, seed: u64, replay: Option<&std::path::Path>) -> i32 {
         tier,
         seed,
         replay,
-        (3000, 20000),
+        (3000, 50000),
         40,
         strategy,
         run_case,
